@@ -165,6 +165,30 @@ FailingClass(c, o) ==
     (IF o.err # "none" THEN {"unexpected_error"}
      ELSE IF o.rel \in {"same", "close"} THEN {} ELSE {"class_mates_differ"})
 
+\* projection angles as a header-representation dimension.  The constructor takes LONPOLE / LATPOLE / THETA0 either as
+\* header cards or as KEYWORDS (the documented way when they are not cards): c.ang = [place, lp, latp]
+\*   place : "default" (not given) | "header" (cards) | "keyword" (constructor keywords)
+\*   lp    : LONPOLE in degrees, on the lattice {0, 90, 180, 270};  latp : LATPOLE (90 = default, or 45)
+\* FITS (Paper II): LONPOLE is the native longitude of the celestial pole.  For the zenithal TAN family (theta0 = 90,
+\* xi = R sin(phi), eta = -R cos(phi)) north at the reference point is the native direction phi = LONPOLE and east is
+\* phi = LONPOLE - 90: a header with LONPOLE = lp is the header with the default 180 whose intermediate world
+\* coordinates are rotated by LonpoleRot(lp) - exact signed permutations on the lattice.  LATPOLE only selects between
+\* two solutions for non-zenithal projections: it never matters here.  Where the angles are given (card or keyword)
+\* is representation: it does not enter the expected value.
+AngPlaces == {"default", "header", "keyword"}
+LonpoleRot(lp) == CASE lp = 180 -> <<<<1, 0>>, <<0, 1>>>> [] lp = 90 -> <<<<0, -1>>, <<1, 0>>>>
+                    [] lp = 270 -> <<<<0, 1>>, <<-1, 0>>>> [] lp = 0 -> <<<<-1, 0>>, <<0, -1>>>>
+AngWellFormed(a) == a.place \in AngPlaces /\ a.lp \in {0, 90, 180, 270} /\ a.latp \in {45, 90}
+                    /\ (a.place = "default" => a.lp = 180 /\ a.latp = 90)
+AngRep(c) == Lin(LonpoleRot(c.ang.lp), TanRepPix(c.h, c.pix, c.distort))
+\* angclass record: c = [h, pix, distort, rep, ang], o = [err, rel] - the class mate is the pure-TAN header with default angles
+FailingAngClass(c, o) ==
+    IF ~AngWellFormed(c.ang) THEN {"ang_case_malformed"}
+    ELSE (IF c.rep # AngRep(c) THEN {"rep_not_in_class"} ELSE {}) \cup
+         (IF OrdersCover(c.h) THEN {} ELSE {"header_malformed"}) \cup
+         (IF o.err # "none" THEN {"unexpected_error"}
+          ELSE IF o.rel \in {"same", "close"} THEN {} ELSE {"projection_angle_misapplied"})
+
 \* sky record:    o = [err, on, lon, lat, inrange]   (lon, lat: the lattice point hit, as pairs <<a, b>>)
 FailingRefPix(c, o) ==
     IF ~RefPixAtOrigin(c.h) THEN {}
@@ -241,10 +265,19 @@ CallNames == {"i2s_d", "i2s_n", "s2i_dr", "s2i_dp", "s2i_np", "s2i_nr", "jac",
 \*   s2i_dp : sky2image(s, distort=True,  find=False)  (fitted inverse polynomial, computed lazily)
 \*   s2i_np : sky2image(s, distort=False, find=False)    s2i_nr : sky2image(s, distort=False, find=True)
 F(call, k) == <<"F", call, k>>
+\* LIFE-CYCLE steps: the caller replaces its handle by copy.copy(w) / copy.deepcopy(w) / pickle.loads(pickle.dumps(w))
+\* (what multiprocessing does with an argument) and goes on with the copy.  A copy of a WCS IS a WCS for the same
+\* header and the same projection angles - wherever the angles were given (c.ang: "default" | "header" | "keyword"):
+\* every later call on it must return F(call, k) of a fresh object constructed like the ORIGINAL.  The statement does
+\* not promise that the object can be copied: a life-cycle step that raises is a stutter step (the caller keeps its
+\* handle, rel = "rejected"); one that returns an object is recorded as "same".
+LifeOps == {"copy", "deepcopy", "pickle"}
 \* a recorded step [call, rel] is allowed iff its result is F(call, k)
-StepAllowed(s) == s.call \in CallNames /\ s.rel = "same"
+StepAllowed(s) == \/ s.call \in CallNames /\ s.rel = "same"
+                  \/ s.call \in LifeOps /\ s.rel \in {"same", "rejected"}
 FailingHistory(c, o) ==
-    IF Len(o.steps) # Len(c.calls) \/ \E k \in DOMAIN c.calls : o.steps[k].call # c.calls[k] THEN {"trace_mismatch"}
+    IF Len(o.steps) # Len(c.calls) \/ (\E k \in DOMAIN c.calls : o.steps[k].call # c.calls[k]) \/ c.ang \notin AngPlaces
+    THEN {"trace_mismatch"}
     ELSE IF \A k \in DOMAIN o.steps : StepAllowed(o.steps[k]) THEN {} ELSE {"result_depends_on_history"}
 
 \* histories over SEVERAL objects alive in one process (the "world": the objects plus whatever the module keeps
@@ -268,5 +301,6 @@ Failing(r) ==
       [] r.kind = "history"   -> FailingHistory(r.c, r.o)
       [] r.kind = "repr"      -> FailingRepr(r.c, r.o)
       [] r.kind = "world"     -> FailingWorld(r.c, r.o)
+      [] r.kind = "angclass"  -> FailingAngClass(r.c, r.o)
       [] OTHER                -> {"unknown_record_kind"}
 =============================================================================
